@@ -38,6 +38,14 @@ func c13Dictionary(thorough bool) []string {
 	for i := 0; i < n; i++ {
 		d = append(d, fmt.Sprintf("field_%d_Name", i), fmt.Sprintf("Coll%dX", i))
 	}
+	// long names that differ only beyond position k (a pseudonym computed from a prefix or a window of the
+	// name collides here), and names that differ only in length
+	for _, k := range []int{7, 8, 15, 16, 23, 24, 31, 32, 33, 47, 48, 63, 64, 65, 127, 128, 255, 256} {
+		base := strings.Repeat("longNameQ", 40)[:k]
+		for _, suf := range []string{"", "a", "b", "aa", "ab", "0", "_", "A"} {
+			d = append(d, base+suf, suf+base)
+		}
+	}
 	d = append(d, "IXSCAN", "SCAN", "REDACTED", "дбЖ", "😀coll", "system", "views", "A", "a b", "a\tb", "a\"b", "a\\b", "ssn", "SSN", "Ssn",
 		strings.Repeat("n", 300), "é", "é")
 	return d
@@ -152,6 +160,26 @@ func c13Run(c *Ctx) {
 				if h := HashName(name); h != strings.Join(want, ".") {
 					c.Violate("componentwise", fmt.Sprintf("HashName(%q)=%q, expected component-wise %q", name, h, strings.Join(want, ".")), int64(len(name)),
 						map[string]any{"kind": "hashname", "name": name, "replacement": pre}, nil)
+				}
+			}
+		}
+		// '$' is ignored only as the first character of the whole name: a component that starts with '$' further
+		// down a dotted path is a different component from the same text without it
+		if c.Shard == 0 {
+			for _, a := range []string{"db", "my_db", "a", "", "x.y"} {
+				for _, b := range []string{"cmd", "b", "", "external", "0"} {
+					for _, pair := range [][2]string{{a + ".$" + b, a + "." + b}, {a + ".$$" + b, a + ".$" + b}, {a + "." + b + ".$", a + "." + b + "."}, {a + ".$" + b + ".q", a + "." + b + ".q"}} {
+						h1, h2 := HashName(pair[0]), HashName(pair[1])
+						c.Eval(2)
+						c.Distinct(rp.name + "\x00inner$" + pair[0])
+						if h1 == h2 {
+							c.Violate("inner-dollar-collision", fmt.Sprintf("HashName(%q) == HashName(%q) == %q: two different components share a pseudonym", pair[0], pair[1], h1), int64(len(pair[0])),
+								map[string]any{"kind": "hashname", "name": pair[0], "other": pair[1], "replacement": pre}, nil)
+						}
+						if !strings.Contains(pre, ".") && strings.Count(h1, ".") != strings.Count(pair[0], ".") {
+							c.Violate("depth", fmt.Sprintf("HashName(%q)=%q does not keep the path depth", pair[0], h1), int64(len(pair[0])), map[string]any{"kind": "hashname", "name": pair[0], "replacement": pre}, nil)
+						}
+					}
 				}
 			}
 		}
